@@ -760,4 +760,51 @@ example : ∃ (s1 s2 : VM) (c m : String),
 example : ∃ s', advanceHeadFront 4 [("f", "h")] demoVM3 = .ok [] s' ∧
     (OMap.lookup "m" s'.r.fx).map (·.childFlowUids) = some [] ∧ (findInst s'.ixs.ix "f").map (·.status) = some .stopped :=
   ⟨_, rfl, rfl, rfl⟩
+
+/-! ### the three open findings of phase 4, as theorems about the AS-IS model (CoreVM mirrors the pinned code) -/
+
+/-- `<noop>; match UtteranceBotAction(..).Nope()`: the event name of the match statement cannot be computed -/
+def badMatchSpec : Spec := Spec.mk (some "UtteranceBotAction") .action [] none (some [Member.mk "Nope" []]) none
+def badMatchCfg : FlowCfg := { demoCfg with elements := #[.other, .matchOp badMatchSpec false] }
+def badMatchVM : VM := { demoVM with r := { demoVM.r with prog := ⟨[badMatchCfg]⟩ } }
+
+/-- FINDING `error-raised-by-head-advance-outside-try` (kernel-evaluated counterexample to "`_advance_head_front` never lets a
+    statement's error out"): `head.position += 1` is outside the try block and fires the head-changed callback, which computes the
+    event name of the match statement the head arrives at — the Python-level exception leaves `_advance_head_front`.
+    (`vm_except_branch` / `vm_error_contained` exclude exactly this region by the hypothesis `hpre … = .ok`.) -/
+theorem advance_position_error_escapes_as_is :
+    ∃ m s', advanceHeadFront 4 [("f", "h")] badMatchVM = .error (.py "ColangSyntaxError" m) s' := ⟨_, _, rfl⟩
+
+/-- FINDING `error-raised-while-processing-internal-event`: an internal `StartFlow` event without `flow_id` raises KeyError in
+    `_process_internal_events_without_default_matchers`, outside every try block -/
+theorem startflow_without_flow_id_escapes_as_is :
+    processInternalEvent 1 { ev := { kind := .internal, name := "StartFlow", args := [] } } demoVM =
+      .error (.py "KeyError" "flow_id") demoVM := rfl
+
+/-- the class of the Python-level exception a result carries -/
+def pyClassOf {α : Type} : EStateM.Result VMErr VM α → Option String
+  | .error (.py c _) _ => some c
+  | _ => none
+
+/-- a freshly created instance `p` of `flow helper_p $a` (one parameter), started by `f` with THREE positional arguments -/
+def paramCfg : FlowCfg :=
+  { id := "helper_p", elements := #[.other], labels := [], params := [{ name := "a", default := none }], returnMembers := [],
+    loopId := none, loopPriority := 0, metaTags := [] }
+def paramIx : IxS := (({} : IxS).apply (.addInst "f" "h" none) (by decide)).apply (.addInst "p" "hp" none) (by decide)
+def paramVM : VM :=
+  { ixs := paramIx,
+    r := { prog := ⟨[demoCfg, paramCfg]⟩,
+           fx := [("f", { flowId := "f", loopId := none, hierPos := "0" }),
+                  ("p", { flowId := "helper_p", loopId := none, hierPos := "0.1", arguments := [("a", .none)] })],
+           hx := [(("f", "h"), {}), (("p", "hp"), {})] } }
+def startP : Event :=
+  { ev := { kind := .internal, name := "StartFlow",
+            args := [("flow_id", .str "helper_p"), ("flow_instance_uid", .str "p"), ("source_flow_instance_uid", .str "f"),
+                     ("source_head_uid", .str "h"), ("$0", .int 1), ("$1", .int 2), ("$2", .int 3)] } }
+
+/-- FINDING `error-raised-while-handling-match`: `_start_flow` ("To many parameters provided in start of flow") is called from
+    `_handle_event_matching`, outside every try block -/
+theorem start_flow_error_escapes_as_is :
+    pyClassOf (handleEventMatching startP [("p", "hp")] paramVM) = some "ColangRuntimeError" := by decide +kernel
+
 end NemoVerif.C10.VM
